@@ -41,7 +41,7 @@ def check(ctx, tier):
     report(coh, "C07.i", funcs=[f.qual for f in fs])
     W.report(ctx, tk, "C07.i", fs)
     from .. import hazards as _hz, scopes as _sc
-    _hz.generic(ctx, tk, "C07.z", _sc.scope(tk, "C07", depth=2))
+    _hz.generic(ctx, tk, "C07.z", _sc.scope(tk, "C07", depth=1))
     return {}
 
 
